@@ -206,6 +206,11 @@ fn build(op: &Op) -> WorldRt {
 pub fn spec(op: Op, e: u32, d: u32) -> WorldSpec {
     let mut cfg = Cfg { e, d, ..Default::default() };
     match &op {
+        Op::Merge(n) | Op::Concat(n) | Op::Combine(n) if *n >= 2 => cfg.nested_events = true,
+        Op::Flatten | Op::Net(_) => cfg.nested_events = true,
+        _ => {},
+    }
+    match &op {
         Op::Merge(_) => cfg.late_greet = true,
         Op::Flatten => cfg.inner_pool = 2,
         Op::ForEach(_) => {
